@@ -140,3 +140,29 @@ package core
 //@   assert-call setNotAvailable: !old(pa.conf.AlwaysAvailable)
 //@   assert-call StartOfflineSubStream: old(pa.conf.AlwaysAvailable)
 //@   ensures [stream-taken-away-from-the-publisher] called(setNotAvailable) + called(StartOfflineSubStream) == 1
+
+// C03: the path manager hands a path to a publisher or reader only after the name resolved against the current
+// configuration and - unless the protocol server already authenticated this very access (SkipAuth) - the
+// authentication manager admitted the request built from exactly this access request; a publisher that was
+// authorized against a configuration is refused when that configuration is no longer the one in force.
+
+//@ func (pm *pathManager) doAddPublisher
+//@   property C03
+//@   safety -all
+//@   assert-call FindPathConf: pathConfs == pm.pathConfs && name == req.AccessRequest.Name
+//@   assert-call Path.Equal: pconf == resultof(FindPathConf, 0) && other == req.ConfToCompare
+//@   assert-call ToAuthRequest: true
+//@   assert-call Authenticate: !caller_req.AccessRequest.SkipAuth && req == resultof(ToAuthRequest) && called(ToAuthRequest) == 1
+//@   assert-call createPath: resultof(FindPathConf, 2) == nil && (caller_req.AccessRequest.SkipAuth || (called(Authenticate) == 1 && resultof(Authenticate, 1) == nil)) && (req.ConfToCompare == nil || (called(Path.Equal) == 1 && resultof(Path.Equal))) && pathConf == resultof(FindPathConf, 0)
+//@   assert-call Int64.Add: resultof(FindPathConf, 2) == nil && (caller_req.AccessRequest.SkipAuth || (called(Authenticate) == 1 && resultof(Authenticate, 1) == nil)) && (req.ConfToCompare == nil || (called(Path.Equal) == 1 && resultof(Path.Equal)))
+//@   ensures [refused-when-configuration-changed] called(Path.Equal) == 1 && !resultof(Path.Equal) ==> called(Int64.Add) == 0 && called(createPath) == 0
+//@   ensures [configuration-compared-when-given] req.ConfToCompare != nil && called(Int64.Add) == 1 ==> called(Path.Equal) == 1
+
+//@ func (pm *pathManager) doAddReader
+//@   property C03
+//@   safety -all
+//@   assert-call FindPathConf: pathConfs == pm.pathConfs && name == req.AccessRequest.Name
+//@   assert-call ToAuthRequest: true
+//@   assert-call Authenticate: !caller_req.AccessRequest.SkipAuth && req == resultof(ToAuthRequest) && called(ToAuthRequest) == 1
+//@   assert-call createPath: resultof(FindPathConf, 2) == nil && (caller_req.AccessRequest.SkipAuth || (called(Authenticate) == 1 && resultof(Authenticate, 1) == nil)) && pathConf == resultof(FindPathConf, 0)
+//@   assert-call Int64.Add: resultof(FindPathConf, 2) == nil && (caller_req.AccessRequest.SkipAuth || (called(Authenticate) == 1 && resultof(Authenticate, 1) == nil))
